@@ -919,6 +919,18 @@ func (l *lexer) scanArithExpr(pos ast.Pos) int {
 				l.b.WriteByte(byte(r))
 			}
 		case '\\', '\'', '"':
+			if r == '\\' {
+				if r, err := l.read(); err == nil {
+					if r == '\n' {
+						// line continuation: it does not end the token
+						if l.b.Len() == 0 {
+							l.mark(0)
+						}
+						continue
+					}
+					l.unread()
+				}
+			}
 			// quoting
 			l.lit()
 			l.mark(-1)
